@@ -39,7 +39,14 @@ WORDS = ["", "a", "ok", "<info>done</info>", "<comment>x</comment><b>y</b>", "é
 
 
 def _line(w, width):
-    k = w.weighted([("short", 5), ("exact", 2), ("over", 2), ("long", 1), ("empty", 1), ("styled", 2)])
+    k = w.weighted([("short", 5), ("exact", 2), ("over", 2), ("long", 1), ("empty", 1), ("styled", 2), ("typographic", 1)])
+    if k == "typographic":
+        # one-cell characters outside ASCII (ellipsis, dashes, quotes) in a line of exactly / almost the width
+        n = w.pick([width, width, width - 1, 2 * width])
+        body = list("y" * n)
+        for _ in range(w.randint(1, 3)):
+            body[w.randrange(n)] = w.pick(["\u2026", "\u2014", "\u201c", "\u201d", "\u2019", "\u00e9"])
+        return "".join(body)
     if k == "short":
         return "s" * w.randint(1, max(1, width - 2))
     if k == "exact":
@@ -63,7 +70,7 @@ def gen(S, tier):
            # an ANSI-capable stream behind a formatter that disables decoration (tty + --no-ansi)
            "plain_formatter": c.chance(0.12),
            # clikit's own StreamOutputStream over a simulated text file (what is not flushed is not on screen)
-           "real_stream": c.chance(0.25),
+           "real_stream": c.chance(0.25), "encoding": c.pick(["utf-8", "utf-8", "cp1252", "latin-1", "ascii"]),
            "pre": [("p" * c.randint(1, width + 3)) for _ in range(c.randint(0, 2))],
            "indent": c.pick([0, 0, 0, 1, 2, 4])}
     w = S("workload")
@@ -165,7 +172,8 @@ def _run(sc, cfg):
     screen = Screen(width)
     if cfg.get("real_stream"):
         from ..realstream import RealStreamOutput, SimFile
-        stream = RealStreamOutput(SimFile("out", log, screen=screen), cfg["ansi"])
+        # (a text file that replaces what it cannot encode would show '?': one cell either way)
+        stream = RealStreamOutput(SimFile("out", log, screen=screen, encoding=cfg.get("encoding") or "utf-8", strict=False), cfg["ansi"])
         res.probe("real_stream_output")
     else:
         stream = SimOutputStream("out", log, ansi=cfg["ansi"], screen=screen)
